@@ -3,7 +3,7 @@
 # (and, if listed in meta.json "also_detected_by", against those checks too); write seeded/RESULTS.md
 cd "$(dirname "$0")/.."
 tier=${1:-quick}; jobs=${2:-3}
-out=seeded/RESULTS.md
+out=${SEED_RESULTS:-seeded/RESULTS.md}
 rows=.build/seedrows; rm -rf $rows; mkdir -p $rows
 one() {
   name=$1; tier=$2; d=seeded/$name
@@ -25,7 +25,7 @@ one() {
   echo "$name:$res"
 }
 export -f one
-ls seeded | grep -v RESULTS | xargs -P $jobs -I{} bash -c "one {} $tier"
+ls seeded | grep -v RESULTS | grep -E "${SEED_FILTER:-.}" | xargs -P $jobs -I{} bash -c "one {} $tier"
 {
 echo "# Seeded changes vs. checks ($tier tier, $(date -u +%FT%TZ), /repo $(git -C /repo rev-parse --short HEAD), /verif $(git rev-parse --short HEAD))"
 echo
